@@ -425,6 +425,10 @@ class Consumer(object):
         # Are we waiting for a request to come back?
         if self._request_d:
             self._request_d.cancel()
+            # The request may have completed already with its response parked
+            # until the current block of messages is processed. Forget it, or
+            # a restarted consumer would never fetch again.
+            self._request_d = None
         # Are we working our way through a block of messages?
         if self._msg_block_d:
             # Need to add a cancel handler...
